@@ -486,6 +486,18 @@ def gen_cases(ctx, n_dy, n_real, n_rev, n_mask, n_few=0):
                     extrema_opts={}, reuse_opts=False, sift_thresh=1e-8, max_imfs=None,
                     transform={'scale': -(2.0 ** int(frs.randint(-2, 3)))}, compare='exact')
         cases.append(case)
+    # near-silent stretches: a windowed two-tone burst on an order-one scale, under the Rilling rule (a RATIO of envelope mean to envelope
+    # half-width - any absolute floor or offset in it shows when the whole signal is scaled down) and under the sd rule
+    for i in range(n_few // 10):
+        n = int(frs.randint(120, 260))
+        t = np.arange(n) / n
+        w = np.exp(-0.5 * ((t - frs.uniform(0.4, 0.6)) / frs.uniform(0.06, 0.08)) ** 2)
+        x = w * (np.sin(2 * np.pi * frs.uniform(18, 30) * t) + 0.6 * np.sin(2 * np.pi * frs.uniform(5, 9) * t))
+        io = {'stop_method': 'rilling', 'rilling_thresh': (0.05, 0.5, 0.05)} if i % 4 else {'stop_method': 'sd', 'sd_thresh': 0.1}
+        case = dict(kind='sift' if i % 2 else 'gni', family='burst', signal=[float(v) for v in x], imf_opts=io, envelope_opts={},
+                    extrema_opts={}, reuse_opts=False, sift_thresh=1e-8, max_imfs=3,
+                    transform={'scale': 2.0 ** int(frs.choice([-8, -8, -4, -12, 6]))}, compare='exact')
+        cases.append(case)
     return cases
 
 
@@ -515,7 +527,7 @@ def run(ctx):
                 'order-one amplitude, length 24..200) x {sd,rilling,fixed} x step {1,1/2,1/4} x {splrep,pchip,mono_pchip} x pad 1..4 x '
                 'magnitude padding {default median-1, reflect, symmetric, mean-2, median-3, edge; fresh options per call or one dict reused '
                 'across the two calls} (x energy option): get_next_imf and sift under c = +-2^k, |k| <= 8 (np.array_equal, sift_thresh*|c|), under arbitrary non-zero reals and '
-                'under time reversal (1e-9*scale); few-extrema family (random walks / smoothed noise of 6..30 samples, default and fixed-iteration options) under c = -2^k bit for bit; mask_sift ratio_sig/ratio_imf x nphases {1,2,3,4,8} under c > 0 and, for even nphases, c < 0. '
+                'under time reversal (1e-9*scale); few-extrema family (random walks / smoothed noise of 6..30 samples, default and fixed-iteration options) under c = -2^k bit for bit; windowed bursts with near-silent tails under the Rilling / sd rules and c = 2^-12..2^6 bit for bit; mask_sift ratio_sig/ratio_imf x nphases {1,2,3,4,8} under c > 0 and, for even nphases, c < 0. '
                 'guard band: a case is discarded when a recorded stop metric / per-sample Rilling metric / energy ratio / component abs-sum '
                 'lies within 1e-6 relative of its threshold, two neighbouring samples of an iterate differ by less than 1e-9 relative, or (mask_freqs=zc) '
                 'a sample of the IMF whose sign changes set the mask frequency is within 1e-9 relative of zero '
